@@ -49,14 +49,30 @@ def reset_naunet_state():
         pass
 
 
+# upper-case symbol lists with a renaming table (UCLCHEM / old UMIST style): case["upper"] = "elements" | "pseudo" says where the
+# electron symbol is listed
+UPPER_REPLACEMENT = {"E": "e", "HE": "He", "SI": "Si", "MG": "Mg", "FE": "Fe", "CL": "Cl", "NA": "Na", "CA": "Ca", "AR": "Ar", "NI": "Ni", "AL": "Al"}
+UPPER_PSEUDO = ["CR", "CRP", "PHOTON", "CRPHOT", "o", "p", "m", "c-", "l-", r"\*"]
+
+
+def upper_lists(case):
+    syms = sorted({sym.upper() for sp in case["pool"] if sp["k"] == "mol" for sym, _ in sp["t"]} | {"H"})
+    if case.get("upper") == "pseudo":
+        return syms, ["E"] + UPPER_PSEUDO
+    return ["E"] + syms, list(UPPER_PSEUDO)
+
+
 def names_of(case):
+    if case.get("upper"):
+        # the names as the user writes them: upper-case symbols, electron E- (naunet renames them: HE -> He, E- -> e-)
+        return [M.spell(dict(sp, t=[[sym.upper(), n] for sym, n in sp["t"]]) if sp["k"] == "mol" else sp, eletter="E-") for sp in case["pool"]]
     return [M.spell(sp, eletter=case.get("eletter", "e-")) for sp in case["pool"]]
 
 
 def names_for_reaction(case, rc):
     """Per-reaction spellings: a reaction may use the alternative electron spelling (e- / E)."""
     names = names_of(case)
-    if rc.get("ealt"):
+    if rc.get("ealt") and not case.get("upper"):
         alt = "E" if case.get("eletter", "e-") == "e-" else "e-"
         names = [alt if sp["k"] == "e" else n for sp, n in zip(case["pool"], names)]
     return names
@@ -128,6 +144,15 @@ class ThermalPatch:
 def build_network(case, **kw):
     from naunet.network import Network
 
+    if case.get("upper"):
+        from naunet.species import Species
+
+        el, ps = upper_lists(case)
+        # (with the electron among the pseudo-elements its symbol is not renamed: it stays the marker the user listed)
+        Species._replacement = {k: v for k, v in UPPER_REPLACEMENT.items() if not (k == "E" and case["upper"] == "pseudo")}
+        kw = dict(kw, elements=el, pseudo_elements=ps)
+        Species.set_known_elements(list(el))
+        Species.set_known_pseudoelements(list(ps))
     names = names_of(case)
     reacs = build_reactions(case)
     net = Network(
@@ -176,7 +201,7 @@ def slot_of(case, proj):
     out = {}
     for i, n in enumerate(names):
         cands = [n]
-        if case["pool"][i]["k"] == "e":
+        if case["pool"][i]["k"] == "e" and not case.get("upper"):
             cands = ["e-", "E"]  # one species, either spelling may have named the slot
         for c in cands:
             al = Species(c).alias
